@@ -152,6 +152,9 @@ type world struct {
 // c09Leases: the lock of a resource is not taken from its execution (row deleted or owned by another execution, without
 // a release by the holder in the same batch) while the clock is before a lower bound of its lease end
 // (acquire / re-acquire / heartbeat processing time + ttl, each >= the submission clock + ttl)
+// hostileOn: the generator pools were extended with hostile values (-hostile)
+var hostileOn bool
+
 // pairsOf renders a string map given as a list of [key, value] pairs (any order) or as an object, sorted by key
 func pairsOf(v any) string {
 	out := []string{}
@@ -1678,6 +1681,57 @@ func (r *runner) generate(g *gen.G, cfg Cfg, bg bool, o genOpts) ([]Step, int, M
 		}
 		return settle(3, ttl1/2+1)
 	}
+	// two registrations whose derived ids coincide — callback (root a, promise b:c) and callback (root a:b, promise c) are both
+	// __resume:a:b:c; subscription b:c on a and subscription c on a:b are both __notify:a:b:c.  The first is registered and its
+	// promise completed (its task takes the id), then the second is registered and ITS promise completed: that completion meets
+	// a task that already carries its registration's id
+	collisionScenario := func() (M, bool) {
+		submit := func(k t_api.Kind, fill func(*t_api.Request)) (M, bool) {
+			nreq++
+			tid := fmt.Sprintf("r%d", nreq)
+			rq := &t_api.Request{Kind: k, Tags: map[string]string{"id": tid, "name": k.String(), "protocol": "dst"}}
+			fill(rq)
+			if info, pred := do(Step{Op: "submit", Tid: tid, Req: canon.Req(rq)}); info != nil {
+				return info, pred
+			}
+			return settle(3, 1)
+		}
+		asSub := g.R.Intn(2) == 0
+		pairs := [][2]string{{"b:c", "a"}, {"c", "a:b"}} // callbacks: (promise, root)
+		if asSub {
+			pairs = [][2]string{{"a", "b:c"}, {"a:b", "c"}} // subscriptions: (promise, subscription id)
+		}
+		if g.R.Intn(2) == 0 {
+			pairs[0], pairs[1] = pairs[1], pairs[0]
+		}
+		for _, pr := range pairs {
+			pr := pr
+			if info, pred := submit(t_api.CreatePromise, func(rq *t_api.Request) {
+				rq.CreatePromise = &t_api.CreatePromiseRequest{Id: pr[0], Timeout: now + 3000 + int64(g.R.Intn(3))*20000, Tags: map[string]string{}}
+			}); info != nil {
+				return info, pred
+			}
+			if asSub {
+				if info, pred := submit(t_api.CreateSubscription, func(rq *t_api.Request) {
+					rq.CreateSubscription = &t_api.CreateSubscriptionRequest{Id: pr[1], PromiseId: pr[0], Timeout: now + 100000, Recv: []byte(`"default"`)}
+				}); info != nil {
+					return info, pred
+				}
+			} else {
+				if info, pred := submit(t_api.CreateCallback, func(rq *t_api.Request) {
+					rq.CreateCallback = &t_api.CreateCallbackRequest{PromiseId: pr[0], RootPromiseId: pr[1], Timeout: now + 100000, Recv: []byte(`"default"`)}
+				}); info != nil {
+					return info, pred
+				}
+			}
+			if info, pred := submit(t_api.CompletePromise, func(rq *t_api.Request) {
+				rq.CompletePromise = &t_api.CompletePromiseRequest{Id: pr[0], State: promise.Resolved}
+			}); info != nil {
+				return info, pred
+			}
+		}
+		return settle(3, 1)
+	}
 	// a registration's life: a promise gets a callback and a subscription, completes, and the resulting resume / notify
 	// tasks are dispatched with every kind of transport answer (success, refusal, error), over a few dispatch cycles
 	registrationScenario := func() (M, bool) {
@@ -2007,6 +2061,13 @@ func (r *runner) generate(g *gen.G, cfg Cfg, bg bool, o genOpts) ([]Step, int, M
 			}
 			continue
 		}
+		if hostileOn && hasKind(t_api.CreateCallback) && hasKind(t_api.CreateSubscription) && hasKind(t_api.CompletePromise) && hasKind(t_api.CreatePromise) && g.R.Intn(60) == 0 {
+			if info, pred := collisionScenario(); info != nil {
+				return steps, len(steps) - 1, info, pred
+			}
+			r.counts["id_collisions"]++
+			continue
+		}
 		if hasKind(t_api.CreateCallback) && hasKind(t_api.CreateSubscription) && hasKind(t_api.CompletePromise) && g.R.Intn(70) == 0 {
 			if info, pred := registrationScenario(); info != nil {
 				return steps, len(steps) - 1, info, pred
@@ -2250,6 +2311,29 @@ func (r *runner) converge(w *world, cfg Cfg, now *int64, settle func(int, int64)
 				if due, ok := promDue[id]; !ok {
 					promDue[id] = round + 5*ceil(overdueNow, cfg.PromiseBatchSize) + 6
 				} else if round > due {
+					// F2: a registration on this promise has the id of a task that exists already (derived ids are not injective
+					// when ids contain ':'), so the completion block's task insert violates the UNIQUE constraint: every attempt
+					// to complete the promise, the sweep's included, fails
+					collides := ""
+					taskIds := map[string]bool{}
+					for _, y := range list("tasks") {
+						taskIds[fmt.Sprint(y.(map[string]any)["id"])] = true
+					}
+					for _, y := range list("callbacks") {
+						cb := y.(map[string]any)
+						if fmt.Sprint(cb["promiseId"]) == id && taskIds[fmt.Sprint(cb["id"])] {
+							collides = fmt.Sprint(cb["id"])
+						}
+					}
+					if collides != "" {
+						if known["F2"] {
+							r.counts["known:F2"]++
+							continue
+						}
+						return M{"what": "property monitor failed on the implementation", "property": "C11", "finding": "F2",
+							"diff":               fmt.Sprintf("promise %s is still pending at clock %d (cycle %d of the idle server), its timeout was %d: its registration %s has the id of an existing task, so every completion of the promise fails on the task insert", id, t, round, num(p["timeout"]), collides),
+							"property_violation": true}, false
+					}
 					return viol(fmt.Sprintf("promise %s is still pending at clock %d (cycle %d of the idle server), its timeout was %d; %d promises were overdue when it was first seen, batch size %d", id, t, round, num(p["timeout"]), overdueNow, cfg.PromiseBatchSize))
 				}
 			}
@@ -2462,6 +2546,7 @@ func main() {
 	}
 	if *hostile {
 		gen.Hostile()
+		hostileOn = true
 	}
 	for _, k := range strings.Split(*knownFlag, ",") {
 		if k != "" {
